@@ -1109,7 +1109,7 @@ func (d *ImportDecl) End() token.Pos {
 	if len(d.Specs) == 0 {
 		return token.NoPos
 	}
-	return d.Specs[0].End()
+	return d.Specs[len(d.Specs)-1].End()
 }
 func (d *EmbedDecl) End() token.Pos { return d.Expr.End() }
 
